@@ -243,6 +243,13 @@ def _mk_prefetch(single, cfe):
                     else (lambda S: z3.And(smt.IDX(F(S)['input_dataset'].t), smt.KEYS(F(S)['input_dataset'].t), smt.ITEMS(F(S)['input_dataset'].t))),
                     hooks=parallel_hooks(), props=('C04',), inline=('_single_thread_prefetch', 'keys')),
         ]
+        if not single:
+            from contracts.stages import _split_refusal
+            oyr, por = items_refused_clauses(self_view)
+            ms['__iter__'] += _split_refusal([Variant('items-refused', params={'with_key': 'true'}, generator=True, on_yield=oyr, post=por,
+                                                      requires=lambda S: z3.And(smt.IDX(F(S)['input_dataset'].t), z3.Not(smt.KEYS(F(S)['input_dataset'].t))),
+                                                      hooks=parallel_hooks(), props=('C03',), inline=('_single_thread_prefetch', 'keys'))],
+                                             lambda S: F(S)['input_dataset'].t)
         ms['__len__'] = [Variant(tag, post=post_len(self_view), props=('C02', 'C04'))]
         ms['copy'] = copy_variants()
         ms.update(flag_variants())
